@@ -67,7 +67,7 @@ def _build(name):
         r = RH.RaggedHistory()
         r.oracles = ('ro', 'model', 'fresh')
         r.weights = dict(append=18, iterappend=10, truncate=12, mode=14, reopen=10, append_bad=2,
-                         truncate_bad=0, getbad=0, iter=0, meta=22, delete=4, iterappend_fail=2)
+                         truncate_bad=0, getbad=0, iter=0, meta=22, delete=4, iterappend_fail=2, metamode=5)
         r.reopen_modes = ('r', 'default', 'default', 'r+')
         r.create_r_p = 0.5
         r.create_empty_p = 0.1
